@@ -1,7 +1,180 @@
-import TapkeeVerif.Model.Tsne
-/-! C17 — property theorems (being filled in; see Proofs/Tsne*.lean). -/
-namespace TapkeeVerif.Tsne
+import Mathlib.Algebra.Order.Field.Rat
+import TapkeeVerif.Proofs.TsneBasic
+import TapkeeVerif.Proofs.QuadTreeForces
+/-!
+# C17 — t-SNE: calibrated similarities from true neighbours, true KL gradient
 
-theorem bisectInit_not_found {K : Type} [One K] : (bisectInit : BisState K).found = false := rfl
+Subject: the executable model `Model/Tsne.lean` of `tsne::TSNE` / `tsne::VpTree` (tied to the C++ by `checks/c17.py`;
+`Gen/TsneOps.lean` is regenerated from the source on every run, so editing the operator of the distance routine
+re-states `sqEuclid_refuted`).
+
+Findings kept here as checked refutations (each reproduced on the real code by the check):
+  * `sqEuclid_refuted`      (F-TSNE-DD)     `DD_map.noalias() = -2 XᵀX` overwrites the norm terms;
+  * `sqEuclid_not_metric`, `bh_neighbours_refuted` (F-TSNE-SQDIST)  the VP-tree prunes with the triangle inequality on
+    *squared* distances, for which it fails, and loses a true neighbour on four collinear points.
+-/
+namespace TapkeeVerif.Tsne
+open TapkeeVerif
+
+/-! ### the squared-distance routine -/
+
+/- FULL STATEMENT (false of the code as it stands):
+     ∀ N D (X : Mat N D K) n m, sqDist X n m = sqEuclid X n m        (DD n m = ‖x_n − x_m‖²) -/
+
+/-- two points 0 and 1 on a line: the routine returns 0 for their squared distance -/
+theorem sqEuclid_refuted :
+    ¬ (∀ (N D : Nat) (X : Mat N D Rat) (n m : Fin N), sqDist X n m = sqEuclid X n m) := by
+  intro h
+  have := h 2 1 (fun n _ => if n = 0 then 0 else 1) 0 1
+  revert this
+  decide +kernel
+
+/-- … and it is exactly the assignment operator: with `+=` the routine is correct, for every matrix over every field -/
+theorem sqEuclid_partial {K : Type} [Field K] {N D : Nat} (X : Mat N D K) (n m : Fin N) :
+    sqDistWith true X n m = sqEuclid X n m := sqDistWith_true_eq X n m
+
+/-- what it returns instead: the Gram term alone -/
+theorem sqDist_as_written {K : Type} [Field K] {N D : Nat} (X : Mat N D K) (n m : Fin N) :
+    sqDist X n m = -(1 + 1) * sumFin D (fun d => X n d * X m d) := by
+  have : Gen.TsneOps.ddAccumulate = false := by decide
+  simp [sqDist, this, sqDistWith]
+
+/-! ### the perplexity bisection (over an abstract, strictly decreasing entropy oracle) -/
+section
+variable {K : Type} [Field K] [LinearOrder K] [IsStrictOrderedRing K]
+
+/-- **bracket invariant**: if the entropy `H` is strictly decreasing in `β` and `H b = log perplexity`, then after any
+    number of passes `min_β < b < max_β` (whenever a bound is set), `min_β < β < max_β`, and `β > 0` -/
+theorem bisect_bracket (H : K → K) (hH : StrictAnti H) (b logPerp tol : K) (hb : H b = logPerp) (htol : 0 < tol)
+    (n : Nat) : Bracket b (bisectIter H logPerp tol n bisectInit) :=
+  bisectIter_invariant (Bracket b) H logPerp tol (bracket_step H hH b logPerp tol hb htol) n _ (bracket_init b)
+
+/-- **found ⇒ calibrated**: when the loop reports `found`, the entropy at the returned `β` is within `tol` (1e-5 < 1e-4)
+    of `log perplexity` — for every oracle `H` -/
+theorem bisect_found (H : K → K) (logPerp tol : K) (n : Nat)
+    (h : (bisectIter H logPerp tol n bisectInit).found = true) :
+    |H (bisectIter H logPerp tol n bisectInit).beta - logPerp| < tol := by
+  have := bisectIter_invariant (FoundOK H logPerp tol) H logPerp tol (foundOK_step H logPerp tol) n _
+    (foundOK_init H logPerp tol) h
+  rw [abs_lt]; constructor <;> linarith [this.1, this.2]
+
+/- FULL STATEMENT (real analysis, not attempted): for the true entropy of a Gaussian row (continuous, strictly
+   decreasing from log(#entries) to log(#ties at the minimum)), every perplexity strictly between those limits is found
+   within 200 passes up to `tol`:  `bisect_converges`. -/
+end
+
+/-! ### dense joint similarities -/
+section
+variable {K : Type} [Field K] {N : Nat}
+
+/-- the joint distribution of the exact branch is symmetric -/
+theorem P_dense_symm (P : Mat N N K) (n m : Fin N) : jointDense P n m = jointDense P m n :=
+  normalise_symm _ (symDense_symm P) n m
+
+/-- … and sums to one (whenever the conditional similarities do not sum to zero) -/
+theorem P_dense_sum_one (P : Mat N N K) (h : total (symDense P) ≠ 0) : total (jointDense P) = 1 :=
+  total_normalise _ h
+
+/-- the returned map is centred: `zeroMean` leaves every column sum zero -/
+theorem zeroMean_centres [CharZero K] {D : Nat} (hN : N ≠ 0) (Y : Mat N D K) (d : Fin D) :
+    sumFin N (fun n => zeroMean Y n d) = 0 := zeroMean_colsum hN Y d
+end
+
+/-! ### the CSR symmetriser -/
+
+/- FULL STATEMENTS (every N, every CSR matrix whose rows have distinct in-range columns):
+     symmetrizeCsr_inbounds : ∃ out, symmetrizeCsr N c = .ok out           (no write outside sym_*[0, no_elem), every cell written)
+     symmetrizeCsr_symm     : out.entry n m = out.entry m n
+     symmetrizeCsr_total    : Σ out.valP = Σ c.valP          and   out.entry n m = (c.entry n m + c.entry m n) / 2
+   Proved below for every sparsity pattern with N ≤ 2 and a 64-pattern sample with N = 3 (diagonal entries included,
+   pairwise different dyadic values); the general induction over the two passes is not done. -/
+
+/-- the CSR matrix with sparsity pattern `mask` (bit `n*N+m` ⇔ entry `(n, m)` present), `k`-th stored value `2^k` -/
+def patternCsr (N mask : Nat) : Csr Rat :=
+  let cells := (List.range N).map fun n => (List.range N).filter fun m => mask.testBit (n * N + m)
+  let rowP := cells.foldl (fun (a : List Nat) r => a ++ [a.getLast! + r.length]) [0]
+  let cols := cells.flatten
+  ⟨rowP.toArray, cols.toArray, ((List.range cols.length).map fun k => ((2 ^ k : Nat) : Rat)).toArray⟩
+
+def symChecks (N mask : Nat) : Bool :=
+  let c := patternCsr N mask
+  match symmetrizeCsr N c with
+  | .error _ => false
+  | .ok out =>
+    ((List.range N).all fun n => (List.range N).all fun m =>
+      decide (out.entry n m = out.entry m n) && decide (out.entry n m * 2 = c.entry n m + c.entry m n)) &&
+    decide (out.valP.foldl (· + ·) 0 = c.valP.foldl (· + ·) 0) &&
+    decide (out.rowP.size = N + 1) && decide (out.colP.size = out.rowP.getD N 0) && decide (out.valP.size = out.colP.size)
+
+/-- in bounds, every cell written, symmetric, halves of the pair sums, total preserved — all patterns up to 2 × 2 -/
+theorem symmetrizeCsr_small_partial : ∀ N < 3, ∀ mask < 2 ^ (N * N), symChecks N mask = true := by
+  decide +kernel
+
+/-- … and 64 of the 512 patterns of size 3 × 3 (every eighth) -/
+theorem symmetrizeCsr_small3_partial : ∀ k < 64, symChecks 3 (8 * k + 5) = true := by
+  decide +kernel
+
+/-! ### Barnes–Hut neighbours: the distance handed to the VP-tree -/
+
+/-- `tsne::euclidean_distance` (no square root) violates the triangle inequality: 0, 1, 3 on a line -/
+theorem sqEuclid_not_metric :
+    ¬ (∀ a b c : List Rat, vpDistance a c ≤ vpDistance a b + vpDistance b c) := by
+  intro h
+  have := h [0] [1] [3]
+  revert this
+  decide +kernel
+
+/- FULL STATEMENT (`bh_neighbours_true`; C02 proves the analogue for tapkee's own VP-tree):
+     (∀ a b c, dist a c ≤ dist a b + dist b c) → dist symmetric, zero on the diagonal →
+     the K+1 search returns the K+1 smallest distances.
+   Its hypothesis fails for the distance the code passes (`sqEuclid_not_metric`), and so does its conclusion: -/
+
+/-- the witness tree: items 0, 2, 3, 4 on a line, vantage point = first item of each range (`uniform_random() = 0`) -/
+def witnessItems : List (Nat × List Rat) := [(0, [0]), (1, [2]), (2, [3]), (3, [4])]
+
+/-- searching the 2 nearest items of the point `2` (itself and `3`, squared distances 0 and 1) returns squared
+    distances 0 and 4: the branch holding `3` is pruned because `dist + τ = 4 + 4 < 9 = threshold` -/
+theorem bh_neighbours_refuted :
+    let built := vpBuild (fun _ _ => 0) 5 0 0 witnessItems
+    let items : Nat → List Rat := fun pos => (built.2.1.getD pos (0, [])).2
+    (vpSearchTop items built.1 [2] 2).map (·.2) = [0, 4] ∧
+    (sortBy (fun a b => decide (a ≤ b)) (witnessItems.map fun it => vpDistance it.2 [2])).take 2 = [0, 1] := by
+  decide +kernel
+
+/-! ### gradients -/
+section
+variable {K : Type} [Field K]
+
+/-- **gradient identity** (what `computeGradient` assembles from the tree's exact sums is the exact-gradient summand):
+    `pos_f − neg_f/ΣQ = Σ_m (y − y_m)·((p_m − q_m/ΣQ)·q_m)` -/
+theorem gradient_identity {ι : Type} (s : Finset ι) (p q dy : ι → K) (S : K) :
+    (∑ m ∈ s, p m * q m * dy m) - (∑ m ∈ s, q m * q m * dy m) / S =
+      ∑ m ∈ s, dy m * ((p m - q m / S) * q m) := gradient_identity_sum s p q dy S
+
+/-- `computeExactGradient` over the true distances is that sum, coordinate by coordinate -/
+theorem exactGradientSpec_apply {N D : Nat} (P : Mat N N K) (Y : Mat N D K) (n : Fin N) (d : Fin D) :
+    exactGradientSpec P Y n d =
+      ∑ m, if n = m then 0 else
+        (Y n d - Y m d) * ((P n m - (1 / (1 + sqEuclid Y n m)) /
+            (∑ a, ∑ c, if a = c then 0 else 1 / (1 + sqEuclid Y a c))) * (1 / (1 + sqEuclid Y n m))) := by
+  simp only [exactGradientSpec, exactGradientOf, sumFin_eq_sum]
+
+/- `bh_theta0_eq_exact`: by `QuadTree.forces_exact_below_threshold` (Props/C18) the pair `(neg_f, ΣQ-contribution)`
+   returned by the tree for point `n` equals `(Σ_{m≠n} q²(y_n − y_m), Σ_{m≠n} q)` for all `θ` below a positive threshold
+   when no two map points coincide; substituting into `gradient_identity` gives `bhGradient = exactGradientSpec` for
+   such `θ`.  The substitution through the flat-buffer model (`bhGradient`, with its `Except` bounds checks) is not
+   carried out in Lean; the correspondence check compares both on every generated case at `θ = 1e-6` (oracle `bh0`).
+
+   `exactGradient_is_grad_KL` — FULL STATEMENT over ℝ:
+     HasGradientAt (fun Y => Σ_{n≠m} P n m * log (P n m / Qn Y n m)) (4 • exactGradientSpec P Y) Y
+   for symmetric P summing to one (Qn = Student-t similarities normalised to sum one).  Not proved (real analysis,
+   DESIGN §9); `exactGradient_is_grad_KL_partial` = `gradient_identity` + `exactGradientSpec_apply`, and the check runs a
+   finite-difference test of the implementation against KL evaluated with rational log enclosures (a test). -/
+end
+
+/-! ### non-vacuity of the bisection hypotheses: `H β = 1 − β` is strictly decreasing and meets `log perplexity = −1` at `β = 2` -/
+example : StrictAnti (fun b : Rat => 1 - b) := fun a b h => by simp only; linarith
+example : (fun b : Rat => 1 - b) 2 = -1 := by norm_num
+example : (bisectIter (fun b : Rat => 1 - b) (-1) (1 / 100000) 3 bisectInit).found = true := by decide +kernel
 
 end TapkeeVerif.Tsne
